@@ -47,6 +47,9 @@ def main():
         rc, out = sh("git -C /repo worktree add --detach %s HEAD" % wt)
         assert rc == 0, out
         demo = os.path.join(d, "demo.py")
+        native = "speedups.c" in open(os.path.join(d, "patch.diff")).read()
+        if native:      # the compiled extension is a build artefact: build it in the scratch tree
+            sh("%s setup.py build_ext --inplace" % PY, cwd=wt, timeout=600)
         t0 = time.time()
         rc0, out0 = sh("%s %s" % (PY, demo), cwd=wt, timeout=300)
         res["demo_clean_rc"] = rc0
@@ -55,6 +58,8 @@ def main():
         if rc != 0:
             res["patch_error"] = out[-500:]
         else:
+            if native:
+                sh("%s setup.py build_ext --inplace" % PY, cwd=wt, timeout=600)
             rc1, out1 = sh("%s %s" % (PY, demo), cwd=wt, timeout=300)
             res["demo_patched_rc"] = rc1
             res["demo_patched_tail"] = out1[-300:]
